@@ -45,6 +45,10 @@ class C15(Property):
         "get_trimmed_orf")] + [
         ("antismash/common/secmet/record.py", "Record.get_aa_translation_from_location"),
         ("antismash/common/secmet/locations.py", "get_sub_location_from_offsets"),
+        ("antismash/common/secmet/record.py", "Record.get_cds_features_within_location"),
+        ("antismash/common/secmet/record.py", "Record.get_cds_features"),
+        ("antismash/common/secmet/features/feature.py", "Feature.crosses_origin"),
+        ("antismash/common/secmet/locations.py", "location_bridges_origin"),
     ]
     RULE = ("scan: DNA built from planted start/stop codons, random triplets and single frame-shifting bases over "
             "ACGT + N/ambiguity codes + lower case, cut as a window out of a random record (linear, or a ring with "
@@ -57,10 +61,13 @@ class C15(Property):
             "at least one gene (gaps), a start found (trim); distinct by canonical input")
     TRUSTED = ["Biopython: Seq.reverse_complement (complement table regenerated from Bio.Data.IUPACData each run), "
                "SimpleLocation/CompoundLocation.extract (modelled as slice / reverse-complement / concatenation in "
-               "part order; the harness compares with the real extract on every record-derived case), Seq.translate",
+               "part order; the harness compares with the real extract on every record-derived case), Seq.translate "
+               "(modelled for ACGT codons with the forward table / stop codons regenerated from Bio.Data.CodonTable; "
+               "codons with ambiguity codes are left to Biopython and checked in Python only)",
                "str.upper() on ASCII input = per-character upper-casing",
                "Python % with a positive modulus = Int.emod; record_length > 0, direction in {1,-1}",
-               "Record.get_cds_features_within_location (C08) is called for real; its result is an input of the model",
+               "Record.get_cds_features_within_location is executed for real inside find_all_orfs; the model runs C08's "
+               "Lean model of it (Model/Lookup.lean) on the record's full gene list, and the spec is judged against ALL genes",
                "get_sub_location_from_offsets is C09's model (Model/ProtDna.lean)"]
 
     def __init__(self) -> None:
@@ -239,6 +246,7 @@ class C15(Property):
                 break
             genes.append([lo, hi, rng.choice([1, -1])])
             pos = max(hi - rng.choice([0, 0, 4, 12]), lo + 1)   # distinct starts: secmet rejects equal locations
+        genes = [self.maybe_split(rng, g) for g in genes]
         area: Any = None
         r = rng.random()
         if circular and r < 0.5:
@@ -249,6 +257,54 @@ class C15(Property):
             lo = rng.randrange(0, L // 2)
             hi = rng.randrange(lo + 1, L + 1)
             area = [lo, hi]
+        return {"kind": "allorfs", "rec": "".join(seq), "circular": circular, "genes": genes, "area": area,
+                "minlen": minlen, "pad": pad}
+
+    @staticmethod
+    def maybe_split(rng: random.Random, gene: List[int]) -> Any:
+        """now and then a gene becomes two exons with an intron (parts in transcription order)"""
+        lo, hi, strand = gene
+        if hi - lo < 9 or rng.random() > 0.15:
+            return gene
+        cut1 = rng.randrange(lo + 2, hi - 4)
+        cut2 = rng.randrange(cut1 + 1, hi - 1)
+        parts = [[lo, cut1, strand], [cut2, hi, strand]]
+        return parts if strand == 1 else parts[::-1]
+
+    def allorfs_nested_case(self, rng: random.Random) -> Dict[str, Any]:
+        """a long gene reaching into the searched area, later-starting genes nested in / overlapping it that end
+        at or before the area's start (or inside it), and ORFs planted inside the long gene's part of the area"""
+        L = rng.choice([120, 150, 240, 300])
+        seq = [rng.choice("ACGT") for _ in range(L)]
+        circular = rng.random() < 0.5
+        pad = rng.choice([0, 3, 10])
+        minlen = rng.choice([6, 9, 12, 30])
+        a = rng.choice([0, 0, 3, 15])
+        b = rng.randrange(L // 2, L - 9)
+        s = rng.randrange(a + 7, b - 20)                      # area starts inside the long gene
+        e = rng.choice([L, L, rng.randrange(b + 1, L + 1), rng.randrange(s + 10, L + 1)])
+        genes = [[a, b, rng.choice([1, -1])]]
+        for _ in range(rng.choice([1, 1, 2, 3])):
+            lo = rng.randrange(a + 1, s)
+            r = rng.random()
+            hi = s if r < 0.25 else (rng.randrange(lo + 1, s + 1) if r < 0.8 else rng.randrange(s, min(b + 30, L) + 1))
+            if hi - lo >= 1 and all(g[0] != lo or g[1] != hi for g in genes):
+                genes.append([lo, hi, rng.choice([1, -1])])
+        if rng.random() < 0.4 and b + 12 < L:                 # an ordinary later gene
+            lo = rng.randrange(b + 1, L - 6)
+            genes.append([lo, min(lo + rng.choice([6, 21, 60]), L), rng.choice([1, -1])])
+        for _ in range(rng.choice([1, 2, 3])):                # ORFs inside the long gene's part of the area
+            length = max(6, rng.choice([minlen + 3, minlen + 9, 21, 33]))
+            if s + 1 + length < b:
+                self.plant(rng, seq, L, rng.randrange(s + 1, b - length), length, rng.random() < 0.5)
+        if rng.random() < 0.7:                                # and one in a genuine gap
+            length = max(6, minlen + 3)
+            if b + pad + length + 1 < e:
+                self.plant(rng, seq, L, rng.randrange(b + pad, e - length), length, rng.random() < 0.5)
+        genes = [self.maybe_split(rng, g) for g in genes]
+        area: Any = [s, e]
+        if circular and e == L and rng.random() < 0.4 and a >= 3:
+            area = [[s, L], [0, rng.randrange(1, a + 1)]]     # the same, as the pre-origin part of a crossing area
         return {"kind": "allorfs", "rec": "".join(seq), "circular": circular, "genes": genes, "area": area,
                 "minlen": minlen, "pad": pad}
 
@@ -308,7 +364,7 @@ class C15(Property):
         for _ in range(8000 * mult):
             yield self.gaps_case(rng)
         for _ in range(1500 * mult):
-            yield self.allorfs_case(rng)
+            yield self.allorfs_case(rng) if rng.random() < 0.6 else self.allorfs_nested_case(rng)
         for _ in range(4000 * mult):
             yield self.trim_case(rng)
         if deep:
@@ -377,7 +433,13 @@ class C15(Property):
     @staticmethod
     def make_record(case: Dict[str, Any]) -> Any:
         from antismash.common.secmet.test.helpers import DummyCDS, DummyRecord
-        feats = [DummyCDS(lo, hi, strand, locus_tag=f"g{i}") for i, (lo, hi, strand) in enumerate(case.get("genes", []))]
+        feats = []
+        for i, g in enumerate(case.get("genes", [])):
+            if isinstance(g[0], list):      # several exons, given in transcription order
+                loc = {"c": True, "parts": g}
+                feats.append(DummyCDS(location=common.make_location(loc), locus_tag=f"g{i}", translation="MMM"))
+            else:
+                feats.append(DummyCDS(g[0], g[1], g[2], locus_tag=f"g{i}"))
         return DummyRecord(seq=case["rec"], features=feats, circular=bool(case.get("circular")))
 
     def impl_allorfs(self, case: Dict[str, Any]) -> Dict[str, Any]:
@@ -408,7 +470,9 @@ class C15(Property):
         if area is not None:
             record.add_subregion(area)
             assert area.crosses_origin() == cross
-        out: Dict[str, Any] = {"parts": parts, "cross": cross}
+        out: Dict[str, Any] = {"parts": parts, "cross": cross, "table": int(record.transl_table),
+                               "all_genes": [{"id": int(f.get_name()[1:]), "loc": common.location_json(f.location)}
+                                             for f in record.get_cds_features()]}
         try:
             feats = find_all_orfs(record, area, min_length=case["minlen"], max_overlap=case["pad"])
         except Exception as exc:  # pylint: disable=broad-except
@@ -463,10 +527,17 @@ class C15(Property):
             return {"kind": kind, "start": case["start"], "end": case["end"], "genes": case["genes"],
                     "minlen": case["minlen"], "pad": case["pad"], "impl": obs.get("areas", [])}
         if kind == "allorfs":
-            if "parts" not in obs:
+            if "all_genes" not in obs:
                 return None
+            spec = case["area"]
+            if spec is None:
+                area = None
+            elif isinstance(spec[0], int):
+                area = {"c": False, "parts": [[spec[0], spec[1], 1]]}
+            else:
+                area = {"c": True, "parts": [[lo, hi, 1] for lo, hi in spec]}
             return {"kind": kind, "rec": case["rec"], "minlen": case["minlen"], "pad": case["pad"],
-                    "cross": obs["cross"], "parts": obs["parts"],
+                    "genes": obs["all_genes"], "area": area, "table": obs["table"],
                     "impl": [f["loc"] for f in obs.get("features", [])]}
         if kind == "trim":
             if "seq" not in obs:
@@ -541,16 +612,23 @@ class C15(Property):
     def judge_allorfs(self, case: Dict[str, Any], obs: Dict[str, Any], drv: Dict[str, Any]) -> Judgement:
         model = drv["model"]
         scope = bool(drv["scope"])
+        # the gene lists the real record lookup produced vs the modelled lookup (C08's model)
+        lookup_ok = obs["parts"] == drv["parts"] and obs["cross"] == drv["cross"]
+        lookup_note = "" if lookup_ok else (f"; record lookup returned {obs['parts']}, the genes sharing a base with "
+                                            f"the area are {drv['parts']}")
         if "err" in obs:
-            corr = model is None
+            corr = model is None and lookup_ok
             return Judgement(corr, corr, in_scope=False, tags=("allorfs", "error"),
-                             detail=f"find_all_orfs raised {obs['err']}: {obs.get('msg')}; model {model}")
+                             detail=f"find_all_orfs raised {obs['err']}: {obs.get('msg')}; model {model}{lookup_note}")
         feats = obs["features"]
         if model is None:
             return Judgement(False, True, detail=f"model predicts an assertion failure, implementation returned {feats}")
         canon = lambda items: sorted((_loc_key(i["loc"]), i["label"]) for i in items)  # noqa: E731
-        corr = canon(feats) == canon(model)
-        detail = "" if corr else f"model {model} vs implementation {[(f['loc'], f['label']) for f in feats]}"
+        corr = canon(feats) == canon(model) and lookup_ok
+        if corr:   # the modelled translation (null = ambiguity codes, left to Biopython) of every location
+            want = {_loc_key(m["loc"]): m["translation"] for m in model}
+            corr = all(want[_loc_key(f["loc"])] in (None, f["translation"]) for f in feats)
+        detail = "" if corr else f"model {model} vs implementation {[(f['loc'], f['label']) for f in feats]}{lookup_note}"
         spec_ok = True
         for f in feats:
             if f["translation"] != f["expected_translation"] or not f["names_agree"]:
@@ -561,11 +639,21 @@ class C15(Property):
                     or any(ex[i:i + 3] in STOPS for i in range(0, len(ex) - 3, 3)):
                 spec_ok = False
                 detail = f"{f['loc']} extracts to {ex}, which is not an open reading frame"
-        if scope and not (drv["in_gaps"] and drv["avoids"]):
+        if scope and not drv["overlap_ok"]:
             spec_ok = False
-            detail = f"an ORF lies outside the intergenic areas {drv['areas']} or inside a gene: {[f['loc'] for f in feats]}"
+            detail = (f"an ORF overlaps an existing gene of the record by more than max_overlap={case['pad']}: "
+                      f"ORFs {[f['loc']['parts'] for f in feats]}, genes {case['genes']}{lookup_note}")
+        elif scope and not drv["in_gaps"]:
+            spec_ok = False
+            detail = f"an ORF lies outside the intergenic areas {drv['areas']}: {[f['loc'] for f in feats]}"
+        hull = [(min(p[0] for p in g), max(p[1] for p in g)) if isinstance(g[0], list) else (g[0], g[1])
+                for g in case["genes"]]
+        nested = any(g[0] < h[0] and h[1] <= g[1] for g in hull for h in hull if g is not h)
         tags = ("allorfs", "cross-origin" if obs["cross"] else ("whole" if case["area"] is None else "area"),
-                "wrapped" if any(f["loc"]["c"] for f in feats) else "unwrapped", f"orfs{min(len(feats), 4)}")
+                "wrapped" if any(f["loc"]["c"] for f in feats) else "unwrapped", f"orfs{min(len(feats), 4)}",
+                "nested-genes" if nested else "plain-genes",
+                "multi-exon-genes" if any(isinstance(g[0], list) for g in case["genes"]) else "one-exon-genes",
+                "translation-modelled" if any(m["translation"] is not None for m in model) else "translation-python-only")
         return Judgement(corr, spec_ok, in_scope=scope, nontrivial=bool(feats), tags=tags, detail=detail)
 
     def judge_trim(self, case: Dict[str, Any], obs: Dict[str, Any], drv: Dict[str, Any]) -> Judgement:
